@@ -940,7 +940,14 @@ impl JitCompiler {
                             if let Some(helper) = helpers.get(&(insn.imm as u32)) {
                                 // We reserve RCX for shifts
                                 self.emit_mov(mem, R9, RCX);
+                                // R10 holds the pointer to mem used by LD_ABS_* and LD_IND_*; it is a
+                                // caller-saved register, so the helper is free to overwrite it: save
+                                // it around the call (twice, to leave the stack alignment as it was).
+                                self.emit_push(mem, R10);
+                                self.emit_push(mem, R10);
                                 self.emit_call(mem, *helper as usize);
+                                self.emit_pop(mem, R10);
+                                self.emit_pop(mem, R10);
                             } else {
                                 Err(Error::other(
                                     format!(
